@@ -247,6 +247,25 @@ def run_job(job):
                         mode = ""
                     spec.append((ri, sp, a, b, mode))
                 run_case(res, w, home, roots, snaps, spec, trace=(qi % 4 == 0))
+        elif job["kind"] == "large":
+            name = "big"
+            os.mkdir(os.path.join(w, name))
+            nodes = []
+            for i in range(job["files"]):
+                nodes.append({"path": "f%05d" % i, "kind": "file", "size": 0})
+            for d in range(job["dirs"]):
+                nodes.append({"path": "d%03d" % d, "kind": "dir"})
+                for k in range(rng.randint(0, 6)):
+                    nodes.append({"path": "d%03d/g%d" % (d, k), "kind": rng.choice(["file", "file", "dir"])})
+                if d % 7 == 0:
+                    nodes.append({"path": "d%03d/deep" % d, "kind": "dir"})
+                    nodes.append({"path": "d%03d/deep/er" % d, "kind": "dir"})
+                    nodes.append({"path": "d%03d/deep/er/x" % d, "kind": "file", "size": 1})
+            tree.materialise(os.path.join(w, name), nodes)
+            snap = tree.snapshot(os.path.join(w, name))
+            for a, b, mode in ((None, None, ""), (None, None, "dfs"), (2, None, "bfs"), (None, 2, "dfs"), (2, 3, ""), (1, 1, "dfs"), (3, 0, "bfs")):
+                run_case(res, w, home, [name], [snap], [(0, rng.choice(["rel", "abs", "dotrel"]), a, b, mode)], trace=False)
+            res.count("large_tree_entries", len(snap))
         else:  # exhaustive shapes
             for si, parents in enumerate(job["shapes"]):
                 name = "s%d" % si
@@ -270,6 +289,9 @@ def main(chk):
     for i in range(n_random):
         jobs.append({"id": "rnd%d" % i, "kind": "random", "seed": job_seed(chk.seed, "C01", i),
                      "queries": 24 if quick else 30, "max_entries": 30 if quick else 60})
+    for i in range(2 if quick else 12):
+        jobs.append({"id": "large%d" % i, "kind": "large", "seed": job_seed(chk.seed, "C01", "L%d" % i), "files": 3000 if i % 2 == 0 else 700,
+                     "dirs": 40 if i % 2 == 0 else 400})
     shapes = enum_shapes(4 if quick else 6)
     per = 4
     for i in range(0, len(shapes), per):
